@@ -16,6 +16,12 @@ let () =
           | "-" -> None
           | "A" -> Some (z_of_int 8, List.init 17 (fun _ -> nz ()))
           | "X" -> Some (z_of_int 4, List.init 10 (fun _ -> nz ()))
+          | "R" -> Some (z_of_int 8, List.init 33 (fun _ -> nz ()))
+          | "V" ->
+            (* only the registers of the mask are valid (valid_registers() yields just those) *)
+            let mask = int_of_string (next ()) in
+            let all = List.init 17 (fun _ -> nz ()) in
+            Some (z_of_int 8, List.filteri (fun i _ -> (mask lsr i) land 1 = 1) all)
           | _ -> failwith "ctx" in
         let parse_regions () =
           let kind = nz () in
